@@ -1,0 +1,76 @@
+//go:build verif
+
+// Package verifhook provides named call sites for the verification harness: scheduling
+// points (Yield, Block/Unblock around native blocking operations, Spawn/Begin/End for
+// goroutine lifetimes) and crash points. With the "verif" build tag the calls are
+// dispatched to a handler installed by the harness; without it (hook_off.go) they are
+// empty functions. The calls never change what the surrounding code computes.
+package verifhook
+
+import "sync/atomic"
+
+// Handler receives the hook calls.
+type Handler interface {
+	Yield(site string)
+	Block(site string)
+	Unblock(site string)
+	Spawn()
+	Begin(site string)
+	End()
+	Crash(site, label string)
+}
+
+type holder struct{ h Handler }
+
+var current atomic.Pointer[holder]
+
+// Set installs (or, with nil, removes) the handler.
+func Set(h Handler) {
+	if h == nil {
+		current.Store(nil)
+		return
+	}
+	current.Store(&holder{h})
+}
+
+func Yield(site string) {
+	if p := current.Load(); p != nil {
+		p.h.Yield(site)
+	}
+}
+
+func Block(site string) {
+	if p := current.Load(); p != nil {
+		p.h.Block(site)
+	}
+}
+
+func Unblock(site string) {
+	if p := current.Load(); p != nil {
+		p.h.Unblock(site)
+	}
+}
+
+func Spawn() {
+	if p := current.Load(); p != nil {
+		p.h.Spawn()
+	}
+}
+
+func Begin(site string) {
+	if p := current.Load(); p != nil {
+		p.h.Begin(site)
+	}
+}
+
+func End() {
+	if p := current.Load(); p != nil {
+		p.h.End()
+	}
+}
+
+func Crash(site, label string) {
+	if p := current.Load(); p != nil {
+		p.h.Crash(site, label)
+	}
+}
